@@ -100,6 +100,8 @@ type lexer struct {
 	prevCol   int
 	pos       ast.Pos
 	last      atomic.Value
+	n         int  // number of emitted tokens
+	hash      bool // whether a comment has been scanned
 }
 
 func newLexer(env *interp.ExecEnv, name string, r io.RuneScanner) *lexer {
@@ -639,6 +641,10 @@ func (l *lexer) lexToken(tok int) action {
 		case len(l.aliases) != 0 || len(l.stack) != 0:
 			l.emit('\n')
 			return l.lexPipeline
+		case l.n == 0 && l.hash:
+			// skip comment lines
+			l.mark(0)
+			return l.lexPipeline
 		}
 	case ')', RAE:
 		if l.cmdSubst != 0 && len(l.stack) == 1 {
@@ -974,12 +980,32 @@ func (l *lexer) scanRawToken() int {
 			if l.lit(); len(l.word) != 0 {
 				return WORD
 			}
-			if !l.linebreak() {
+			if !l.scanComment() {
 				return -1
 			}
 		default:
 			l.b.WriteRune(r)
 		}
+	}
+}
+
+// scanComment scans a comment up to, but not including, <newline>.
+func (l *lexer) scanComment() bool {
+	l.hash = true
+	l.mark(0)
+	l.read() // #
+	for {
+		r, err := l.read()
+		if err != nil {
+			l.comment()
+			return err == io.EOF
+		}
+		if r == '\n' {
+			l.unread()
+			l.comment()
+			return true
+		}
+		l.b.WriteRune(r)
 	}
 }
 
@@ -1630,6 +1656,7 @@ func (l *lexer) emit(typ int) {
 		}
 	}
 	l.word = nil
+	l.n++
 	select {
 	case l.token <- tok:
 	case <-l.cancel:
